@@ -374,7 +374,7 @@ def _main(chk: Check, base: str) -> None:
                 'sample through configure_file() with the CLI; B: random templates of up to 12 lines of placeholder-like '
                 'fragments with random configurations, and the header dump. Non-trivial = the real output differs from the '
                 'template, the template is rejected, or names are reported missing (distinct template x configuration x format).')
-    n_rand = 6000 if quick else 150000
+    n_rand = 6000 if quick else 80000
     res = run_tlc(SPECS / 'template', 'Template_MC', cfg_text=mc_cfg([3], range(1, 11), [1], 0, ONCE), timeout=3000,
                   allow_violation=False)
     chk.add_tlc('Template_MC[pinned cases, header]', res)
@@ -425,7 +425,7 @@ def _main(chk: Check, base: str) -> None:
     chk.extra['random_templates'] = n_rand
     # (A') a sample through configure_file() with the real command line
     from . import template_cli
-    template_cli.run(chk, space, judge, _account)
+    template_cli.run(chk, space, judge, _account, base)
     chk.exhaustive = True
     chk.assumptions += [
         'define lines are generated with the keyword standing alone (followed by a blank); "#mesondefineFOO BAR" and a '
